@@ -273,6 +273,24 @@ def _build_registry():
     for cfg in ("Crc7", "Crc8", "Crc9", "Crc16", "Crc32"):
         for table in (False, True):
             E(f"BitCrcCalculator({cfg},{'table' if table else 'bitwise'}).calculate_checksum", bitcrc(cfg, table), "bits:0-200")
+    def customcrc(width, poly, table, feed=None):
+        def f(bits):
+            k = ("custom", width, poly, table, feed)
+            if k not in calcs:  # a user-defined configuration of the public BitCrcConfiguration (legal, unusual), long-lived like the others
+                kw = {"feed_width_bits": feed} if feed else {}
+                try:
+                    cfg = L("etsi.crc.crc:BitCrcConfiguration")(width_bits=width, polynomial=poly, init_value=0, final_xor_value=0, reverse_input_bytes=False,
+                                                                reverse_output_bytes=False, **kw)
+                except TypeError:
+                    cfg = L("etsi.crc.crc:BitCrcConfiguration")(width_bits=width, polynomial=poly, init_value=0, final_xor_value=0, reverse_input_bytes=False,
+                                                                reverse_output_bytes=False)
+                calcs[k] = L("etsi.crc.crc:BitCrcCalculator")(cfg, table_based=table)
+            return calcs[k].calculate_checksum(bits)
+        return f
+
+    for width, poly in ((16, 0x8005), (8, 0x31), (9, 0x119), (32, 0x1EDC6F41), (7, 0x09), (16, 0x1021)):
+        for table in (False, True):
+            E(f"BitCrcCalculator(custom w{width} poly {poly:#x},{'table' if table else 'bitwise'}).calculate_checksum", customcrc(width, poly, table), "bits:0-200")
     E("CRC8.calculate", lambda b: L("etsi.crc.crc8:CRC8").calculate(b), "bits:28|36|0-80")
     E("CRC8.check", lambda b, c: L("etsi.crc.crc8:CRC8").check(b, c), "bits:28|36", "int:0:255")
     E("CRC9.calculate", lambda b, m: L("etsi.crc.crc9:CRC9").calculate(b, m), "bits:80-200", "mask")
@@ -865,11 +883,37 @@ class C19(Check):
     def worker_init(self):
         fresh_server()
 
+    def arm_groups(self, tier):
+        # group 0: processes that imported only third-party dependencies, none of the library's own modules: every call imports lazily what it
+        # needs, so "alone" (nothing imported before) vs "after other calls" vs the fresh interpreter (everything imported) differ in import
+        # history -- a result that depends on which modules happened to be imported earlier shows up as a difference
+        return [{"min-imports"}, {"history"}]
+
+    def preload_group(self, i):
+        if i == 0:
+            _build_registry()
+            harvest(core.repo_root())
+            import array, bitarray, bitarray.util, kaitaistruct, numpy, pkgutil  # noqa: third-party / stdlib only
+            import okdmr.kaitai as _k
+
+            for m in pkgutil.walk_packages(_k.__path__, "okdmr.kaitai."):
+                try:
+                    importlib.import_module(m.name)
+                except Exception:
+                    pass
+            for mod in ("scapy.layers.inet", "puresnmp", "asyncio", "uuid", "secrets", "socket"):
+                try:
+                    importlib.import_module(mod)
+                except Exception:
+                    pass
+        else:
+            self.preload()
+
     def budget(self, tier):
         return 200.0 if tier == "quick" else 1800.0
 
     def arms(self, tier):
-        return [("history", 700 if tier == "quick" else 12000)]
+        return [("min-imports", 300 if tier == "quick" else 4000), ("history", 700 if tier == "quick" else 12000)]
 
     def generate(self, arm, index, streams, tier):
         _build_registry()
@@ -877,9 +921,9 @@ class C19(Check):
         g = ArgGen(w, harvest(core.repo_root()))
         names = sorted(ENTRIES)
         # swarm: each run concentrates on a random subset of entry points so that pairs repeat within a history
-        subset = k.sample(names, k.choice([1, 1, 2, 3, 5, 8, 16, 40]))
+        subset = k.sample(names, k.choice([1, 1, 2, 3, 5, 8, 16, 40]) if arm != "min-imports" else k.choice([1, 2, 3, 5]))
         nclients = k.choice([2, 2, 3, 4])
-        n = k.choice([10, 20, 40, 80, 120])
+        n = k.choice([10, 20, 40, 80, 120]) if arm != "min-imports" else k.choice([6, 12, 25])
         ops = []
         pool = []  # recent (entry, args) so that the same call is repeated after other calls
         for _ in range(n):
@@ -932,15 +976,18 @@ class C19(Check):
                     alone[key] = ["timeout"]
                 except pristine.ChildCrash:
                     alone[key] = ["crash"]
-                if srv is not None and alone[key] not in (["timeout"], ["crash"]) and core.derive("fresh", key) % 5 < 3:  # seeded 60 % sample
+                if srv is not None and alone[key] not in (["timeout"], ["crash"]) and (case.get("arm") == "min-imports" or core.derive("fresh", key) % 5 < 3):
+                    # (every call of the min-imports group, a seeded 60 % sample otherwise)
                     # the same call, alone, in a genuinely fresh interpreter started with another PYTHONHASHSEED
                     other = srv.call(op["entry"], op["args"])
                     res.probe("fresh_interpreter_other_hashseed_evaluations")
                     if other and other[0] in ("server-gone", "crash", "harness-exception"):
                         res.probe("fresh_interpreter_" + other[0])
                     elif other != alone[key]:
-                        res.violate("C19.result-depends-on-hash-seed", op["entry"], f"{op['entry']}({core.dumps(op['args'])[:160]}) evaluated alone gives {core.dumps(alone[key])[:200]} "
-                                    f"in this interpreter (PYTHONHASHSEED={os.environ.get('PYTHONHASHSEED')}) and {core.dumps(other)[:200]} in a fresh interpreter with PYTHONHASHSEED=4242", at=oi)
+                        res.violate("C19.result-depends-on-interpreter-context", op["entry"], f"{op['entry']}({core.dumps(op['args'])[:160]}) evaluated alone gives {core.dumps(alone[key])[:200]} "
+                                    f"in a child of this process (PYTHONHASHSEED={os.environ.get('PYTHONHASHSEED')}, library modules imported before the call: "
+                                    f"{sum(1 for m in __import__('sys').modules if m.startswith('okdmr.dmrlib.'))}) and {core.dumps(other)[:200]} in a fresh interpreter "
+                                    f"(PYTHONHASHSEED=4242, whole library imported): the result depends on the hash seed or on what was imported earlier", at=oi)
                         res["viol"][-1]["case"] = {"property": "C19", "knobs": case.get("knobs", {}), "ops": [op], "arm": case.get("arm"), "run": case.get("run")}
         # phase 2: the history, in this one process, under the HISTORY clock/entropy
         seams = Seams(2_240_000_000.0, 0xB0B)  # 2040-12
